@@ -33,7 +33,7 @@ def check_instance(inst, F, ctx, extra):
             check_delegation(inst, V, ctx, p, 'IntoStr', checked)
     if did:
         ctx.nontrivial.add(tuple(inst.rec['classes'][:5]) + (inst.feats.get('as_str', {}).get('mode', 'auto' if 'as_str' in inst.feats else 'helper'),))
-        tables.check_tables(inst, F, ctx, {'T2', 'T4', 'T4-offset'})
+        tables.check_tables(inst, F, ctx, ({'T2'} if 'T2' in V.used else set()) | ({'T4', 'T4-offset'} if 'T4' in V.used else set()))
         if len(ctx.samples) < 4 and inst.decl['naming'] == 'hostile':
             ctx.sample({'instance': inst.describe()[:300], 'names_in_discriminant_order': inst.names[:8], 'decided': 'as_str(v) == name(v) for all %d variants' % len(inst.S)})
 
